@@ -15,7 +15,7 @@ for d in sorted(glob.glob("/verif/seeded/*/meta.json")):
         s = s[:227] + "..."
     s = s.replace("|", "\\|")
     hist = m.get("strengthened", "")
-    rows.append("| %s | %s | %s | %s |" % (name, s, ", ".join(rules) or "**missed**", hist))
+    rows.append("| %s | %s | %s | %s |" % (name, s, ", ".join(rules) or "**missed**", hist.replace("|", "\\|")))
 print("| seed | change | caught by (first rule reporting) | strengthening needed |")
 print("|---|---|---|---|")
 print("\n".join(rows))
